@@ -17,7 +17,7 @@ import (
 // original string, increase, do not overlap and cover every non-space rune.
 
 func TestVerif(t *testing.T) {
-	vrep.Main(t, "github.com/google/licenseclassifier/stringclassifier/searchset/tokenizer", map[string]vrep.Harness{"c17_tokens": c17Tokens, "c17_longwords": c17LongWords})
+	vrep.Main(t, "github.com/google/licenseclassifier/stringclassifier/searchset/tokenizer", map[string]vrep.Harness{"c17_tokens": c17Tokens, "c17_longwords": c17LongWords, "c17_runes": c17Runes})
 }
 
 func c17Check(s string) string {
@@ -164,6 +164,39 @@ func c17LongWords(c *vrep.Ctx) {
 		if m := r.Note["msg"].(string); m != "" {
 			id := r.Note["id"].(string)
 			c.Violate("c17_longwords:"+strings.ReplaceAll(id, " ", "_"), id+": "+m, r, m)
+		}
+	})
+}
+
+// c17Runes: every code point U+0000..U+2FFF, plane ends, every byte 0x80..0xFF alone and malformed
+// sequences, alone / at the start / inside / at the end of a word; the same oracle.
+func c17Runes(c *vrep.Ctx) {
+	var units []string
+	for r := rune(0); r < 0x3000; r++ {
+		units = append(units, string(r))
+	}
+	for _, r := range []rune{0xFFFC, 0xFFFD, 0xFFFE, 0xFFFF, 0x10000, 0x1F600, 0xE000, 0xF8FF, 0x10FFFE, 0x10FFFF} {
+		units = append(units, string(r))
+	}
+	for b := 0x80; b <= 0xFF; b++ {
+		units = append(units, string([]byte{byte(b)}))
+	}
+	units = append(units, "\xed\xa0\x80", "\xed\xbf\xbf", "\xf4\x90\x80\x80", "\xc0\x80")
+	places := [][2]string{{"aa ", " bb"}, {"aa ", "bc bb"}, {"aa b", "c bb"}, {"aa bc", " bb"}, {"", ""}, {"aa,", ",bb"}}
+	c.R.Rule = fmt.Sprintf("%d characters (every code point U+0000..U+2FFF, plane ends, private use, single bytes 0x80..0xFF, malformed sequences) x %d places (alone, start / middle / end of a word, whole input, between punctuation); oracle as c17_tokens; non-trivial = all cases", len(units), len(places))
+	body := func(r *vx.Run) {
+		u := units[r.Choose(len(units), "character")]
+		pl := places[r.Choose(len(places), "place")]
+		s := pl[0] + u + pl[1]
+		r.Note = map[string]interface{}{"id": fmt.Sprintf("%+q in %q", u, pl[0]+"_"+pl[1]), "msg": c17Check(s)}
+	}
+	e := c.Explorer(0)
+	e.SplitDepth = 1
+	c.Run(e, body, func(r *vx.Run) {
+		c.R.Nontrivial++
+		if m := r.Note["msg"].(string); m != "" {
+			id := r.Note["id"].(string)
+			c.Violate("c17_runes:"+strings.ReplaceAll(id, " ", "_"), id+": "+m, r, m)
 		}
 	})
 }
